@@ -745,6 +745,7 @@ class ProtoClassMetadata:
         "field_name_by_number",
         "meta_by_field_name",
         "sorted_field_names",
+        "field_name_by_key",
     )
 
     oneof_group_by_field: Dict[str, str]
@@ -754,6 +755,7 @@ class ProtoClassMetadata:
     sorted_field_names: Tuple[str, ...]
     default_gen: Dict[str, Callable[[], Any]]
     cls_by_field: Dict[str, Type]
+    field_name_by_key: Dict[str, str]
 
     def __init__(self, cls: Type["Message"]):
         by_field = {}
@@ -783,6 +785,15 @@ class ProtoClassMetadata:
         )
         self.default_gen = self._get_default_gen(cls, fields)
         self.cls_by_field = self._get_cls_by_field(cls, fields)
+        # The keys under which to_dict / to_pydict emit each field. Casing is lossy
+        # ("address_line_1" -> "addressLine1" -> "address_line1"), so the field of a
+        # key is looked up here rather than derived from the key again.
+        by_key: Dict[str, str] = {}
+        for field_name in by_field_name:
+            for casing in (Casing.CAMEL, Casing.SNAKE):
+                by_key.setdefault(casing(field_name).rstrip("_"), field_name)
+        by_key.update((field_name, field_name) for field_name in by_field_name)
+        self.field_name_by_key = by_key
 
     @staticmethod
     def _get_default_gen(
@@ -1679,7 +1690,9 @@ class Message(ABC):
     def _from_dict_init(cls, mapping: Mapping[str, Any]) -> Mapping[str, Any]:
         init_kwargs: Dict[str, Any] = {}
         for key, value in mapping.items():
-            field_name = safe_snake_case(key)
+            field_name = cls._betterproto.field_name_by_key.get(
+                key
+            ) or safe_snake_case(key)
             try:
                 meta = cls._betterproto.meta_by_field_name[field_name]
             except KeyError:
@@ -1978,7 +1991,9 @@ class Message(ABC):
         """
         self._serialized_on_wire = True
         for key in value:
-            field_name = safe_snake_case(key)
+            field_name = self._betterproto.field_name_by_key.get(
+                key
+            ) or safe_snake_case(key)
             meta = self._betterproto.meta_by_field_name.get(field_name)
             if not meta:
                 continue
